@@ -69,6 +69,9 @@ func randomCfg(prop string, f *evid.Flags, idx int) (*dCfg, *rng.R) {
 		c.ReAlerter = r.Chance(1, 6)
 	}
 	c.Procs = []int{0, 0, 0, 0, 1, 2}[r.Intn(6)]
+	if idx%8 == 5 {
+		c.EmptyAt = 1 + (idx/8)%c.W // one zero-length message somewhere in producer 0's sequence
+	}
 	if isRace() && prop != "C12" && idx%2 == 1 {
 		c.Hookless = true
 		c.NoisePlan = nil
@@ -677,6 +680,10 @@ func judgeC12(out *evid.Out, r *dRun) {
 		}
 		viol(sig, fmt.Sprintf("after every Write had returned, with no further Write or Close, the consumer stopped at readIndex %d (%s) while positions up to %d were claimed: delivered %d, reported %d of %d written; consumer %s",
 			readIndexAtStall(r), r.StallState, r.maxClaimed, del, al, ret, firstLines(r.StallDump, 4)))
+	case "exited":
+		_, ret, del, al := r.counts()
+		viol("consumer-exited-with-work-pending", fmt.Sprintf("after every Write had returned, with Close not yet called, the consumer goroutine no longer exists while positions up to %d were claimed and the consumer had reached %d: delivered %d, reported %d of %d written - only a Close could still deliver the rest",
+			r.maxClaimed, readIndexAtStall(r), del, al, ret))
 	case "inconclusive":
 		out.Inconc("neither progress nor a stable blocked state within the watchdog " + r.cfg.String())
 	default:
@@ -766,6 +773,9 @@ func diodeCheck(prop string, args []string) int {
 			out.Sample(d, 4)
 		}
 		out.Count("noisy_runs", 1)
+		if cfg.EmptyAt != 0 {
+			out.Count("runs_with_zero_length_message", 1)
+		}
 	}
 	// 2a. (thorough) pairs of directed pauses: the k1-th arrival at p1 and the k2-th arrival at p2 each wait
 	// until a goroutine of another role makes a step (sharded)
